@@ -240,11 +240,15 @@ pub fn run(tier: Tier) -> Report {
             }
         }
     }
-    if tier.thorough() {
-        // every level of every escape form x every quantizer on four runs
-        for run in [0u8, 1, 26, 62] {
-            for &q in qs {
-                for last in [false, true] {
+    {
+        // every level of every escape form x every quantizer (mid-range values, not only boundaries):
+        // thorough on four runs and both LAST values, quick on run 3 with LAST = 1
+        let all_q: Vec<u8> = (1..=31).collect();
+        let runs: &[u8] = if tier.thorough() { &[0, 1, 26, 62] } else { &[3] };
+        let lasts: &[bool] = if tier.thorough() { &[false, true] } else { &[true] };
+        for &run in runs {
+            for &q in &all_q {
+                for &last in lasts {
                     for lv in (-127..=127i16).filter(|l| *l != 0) {
                         push_event(Ev { run, level: lv, form: Form::Esc8 }, last, q, &v0);
                     }
